@@ -55,9 +55,6 @@ func verifIsSpace(b byte) bool {
 func Harness_C12_hdr() {
 	mtypes := []string{"a/b", ""}
 	mt := mtypes[0]
-	if thorough() {
-		mt = mtypes[nondetChoice("mtype", 2)]
-	}
 	optional := nondetBool("optional-content-type")
 	crlf := nondetBool("crlf")
 	eol := func(line []byte) []byte {
@@ -67,17 +64,10 @@ func Harness_C12_hdr() {
 		return append(line, '\n')
 	}
 	name := func(lower string) []byte {
-		if thorough() {
-			return verifCased(lower) // a symbolic case bit per letter
-		}
 		if lower == "content-type" {
 			return []byte("Content-Type")
 		}
-		nvar := 2
-		if thorough() {
-			nvar = 3
-		}
-		switch nondetChoice("case-"+lower, nvar) {
+		switch nondetChoice("case-"+lower, 2) {
 		case 0:
 			return []byte(lower)
 		case 1: // Canonical-Form
@@ -116,7 +106,7 @@ func Harness_C12_hdr() {
 	// optional unknown field or a line that is not a header line
 	other := 2 * nondetChoice("other-line", 2)
 	if thorough() {
-		other = nondetChoice("other-line3", 3)
+		other = nondetChoice("other-line3", 3) // adds the unknown-field line
 	}
 	switch other {
 	case 1:
@@ -132,16 +122,20 @@ func Harness_C12_hdr() {
 		if ows {
 			line = append(line, ' ')
 		}
-		maxv := 2
-		if thorough() {
-			maxv = 3
+		// the value: any 0..2 bytes, or one of the spellings that other number
+		// syntaxes accept and a decimal Content-Length must not
+		var val []byte
+		if nondetBool("odd-spelling") {
+			odd := []string{"0x1", "0X2", "0b1", "0o2", "1_0", "010", "1e1", "1.0", "+-1", "0x"}
+			val = []byte(odd[nondetChoice("which-spelling", len(odd))])
+		} else {
+			val = nondetBytes("length-value", 2)
 		}
-		val := nondetBytes("length-value", maxv)
 		for _, b := range val {
 			assume(!verifIsSpace(b)) // surrounding white space is the ows bits' job
 		}
 		line = append(line, val...)
-		if (thorough() && nondetBool("trailing-space")) || (!thorough() && ows) {
+		if ows {
 			line = append(line, ' ')
 		}
 		stream = append(stream, eol(line)...)
@@ -162,9 +156,6 @@ func Harness_C12_hdr() {
 		stream = append(stream, '\n')
 	}
 	bodyLen := 2
-	if thorough() {
-		bodyLen = nondetChoice("bodylen3", 4)
-	}
 	body := make([]byte, bodyLen)
 	for i := range body {
 		body[i] = nondetByte("body")
@@ -175,7 +166,7 @@ func Harness_C12_hdr() {
 
 	npol := 1
 	if thorough() {
-		npol = 5
+		npol = 2
 	}
 	h := verifHdrChan(mt, newVerifStreamN(stream, npol), nil)
 	var rx Channel = h
